@@ -202,13 +202,98 @@ pub struct Built {
     pub nonce: Option<[u8; 8]>,
 }
 
+thread_local! {
+    /// which of the equivalent ways of building the configuration is used (None: chosen from the program's seed)
+    pub static CONFIG_PATH: std::cell::Cell<Option<u8>> = const { std::cell::Cell::new(None) };
+}
+pub const CONFIG_PATHS: u8 = 7;
+
+/// The same configuration reached through different sequences of builder calls: what the
+/// archive is (layers, level, recipients, fresh secrets) must not depend on the route.
 pub fn writer_config(p: &Program, pks: &[PublicKey]) -> ArchiveWriterConfig {
-    let mut c = ArchiveWriterConfig::new();
-    c.set_layers(layers_of(p.layers));
-    if p.layers & 2 != 0 {
+    let path = CONFIG_PATH.with(std::cell::Cell::get).unwrap_or((p.seed % u64::from(CONFIG_PATHS)) as u8);
+    writer_config_path(p, pks, path)
+}
+
+pub fn writer_config_path(p: &Program, pks: &[PublicKey], path: u8) -> ArchiveWriterConfig {
+    let want = layers_of(p.layers);
+    let enc = p.layers & 1 != 0;
+    let comp = p.layers & 2 != 0;
+    let mut c = match path % CONFIG_PATHS {
+        1 => {
+            // from the default configuration
+            let mut c = ArchiveWriterConfig::default();
+            c.set_layers(want);
+            c
+        }
+        2 => {
+            // layer by layer
+            let mut c = ArchiveWriterConfig::new();
+            c.set_layers(Layers::EMPTY);
+            if comp {
+                c.enable_layer(Layers::COMPRESS);
+            }
+            if enc {
+                c.enable_layer(Layers::ENCRYPT);
+            }
+            c
+        }
+        3 => {
+            // everything, then what is not wanted is taken away
+            let mut c = ArchiveWriterConfig::new();
+            c.set_layers(Layers::COMPRESS | Layers::ENCRYPT);
+            if !comp {
+                c.disable_layer(Layers::COMPRESS);
+            }
+            if !enc {
+                c.disable_layer(Layers::ENCRYPT);
+            }
+            c
+        }
+        4 => {
+            // a layer switched off and on again
+            let mut c = ArchiveWriterConfig::new();
+            c.set_layers(want);
+            c.disable_layer(Layers::ENCRYPT | Layers::COMPRESS);
+            c.set_layers(want);
+            c
+        }
+        5 => {
+            // each wanted layer toggled once
+            let mut c = ArchiveWriterConfig::new();
+            c.set_layers(want);
+            if enc {
+                c.disable_layer(Layers::ENCRYPT);
+                c.enable_layer(Layers::ENCRYPT);
+            }
+            if comp {
+                c.disable_layer(Layers::COMPRESS);
+                c.enable_layer(Layers::COMPRESS);
+            }
+            c
+        }
+        6 => {
+            // recipients and level given before the layers are chosen
+            let mut c = ArchiveWriterConfig::new();
+            if enc {
+                c.add_public_keys(pks);
+            }
+            if comp {
+                c.with_compression_level(p.level).expect("level");
+            }
+            c.set_layers(want);
+            return c;
+        }
+        _ => {
+            let mut c = ArchiveWriterConfig::new();
+            c.set_layers(want);
+            c
+        }
+    };
+    if comp {
         c.with_compression_level(p.level).expect("level");
     }
-    if p.layers & 1 != 0 {
+    if enc {
         c.add_public_keys(pks);
     }
     c
